@@ -32,14 +32,16 @@ pub struct Item {
 #[derive(Clone, Copy, Debug, PartialEq, Eq)]
 pub struct Setup {
     pub step_size: u64,
-    /// 0 = trading on, 1 = constructed with trading off, 2 = switched off after the set-up step
+    /// 0 = trading on, 1 = constructed with trading off, 2 = switched off after the set-up step,
+    /// 3 = constructed with trading off, the set-up leaves the book crossed, trading is switched ON
+    /// right before the batch is submitted (the step that resumes trading on a crossed book)
     pub trading: u8,
 }
 
 pub const DEFAULT_SETUP: Setup = Setup { step_size: 100_000, trading: 0 };
 
 fn setup_json(s: &Setup) -> serde_json::Value {
-    let tr = ["on", "off at construction", "disabled after the set-up step"][s.trading as usize];
+    let tr = ["on", "off at construction", "disabled after the set-up step", "off at construction, book left crossed, enabled right before the batch"][s.trading as usize];
     json!({"step_size": s.step_size, "trading": tr})
 }
 
@@ -51,7 +53,7 @@ pub fn run_batch<const A: usize>(multi: bool, items: &[Item], script: &[Ans], se
 
 pub fn run_batch_in<const A: usize>(su: Setup, multi: bool, items: &[Item], script: &[Ans], seed: u64) -> Result<(Vec<usize>, u64, u64), String> {
     let ticks = vec![1u32; A];
-    let mut env = AnyEnv::<A, 3>::make(multi, 0, &ticks, su.step_size, su.trading != 1);
+    let mut env = AnyEnv::<A, 3>::make(multi, 0, &ticks, su.step_size, su.trading != 1 && su.trading != 3);
     // resting targets and a deep ask quote per asset
     let mut targets: Vec<Option<(usize, usize)>> = vec![None; items.len()];
     for a in 0..A {
@@ -63,10 +65,19 @@ pub fn run_batch_in<const A: usize>(su: Setup, multi: bool, items: &[Item], scri
             targets[i] = Some((it.asset, id.1));
         }
     }
+    if su.trading == 3 {
+        // a bid above the deep ask quote: rests crossed while trading is off
+        for a in 0..A {
+            env.place(a, true, 1, 4, Some(6000)).map_err(|_| "setup")?;
+        }
+    }
     let mut pre = ScriptRng::new(vec![], 4242);
     env.step(&mut pre);
     if su.trading == 2 {
         env.disable();
+    }
+    if su.trading == 3 {
+        env.enable();
     }
     let start = env.book(0).get_time();
     let mut ids: Vec<Option<(usize, usize)>> = vec![None; items.len()];
@@ -474,7 +485,7 @@ fn content_independence<const A: usize>(acc: &Acc, multi: bool, n: usize, summar
 
 fn content_independence_in<const A: usize>(acc: &Acc, su: Setup, multi: bool, n: usize, summary: &mut Vec<serde_json::Value>) {
     // (a re-pricing modify is observed through the trade it causes: only with trading on)
-    let kinds: Vec<Kind> = if su.trading == 0 { vec![Kind::Limit, Kind::Market, Kind::Cancel, Kind::Modify, Kind::CancelNew, Kind::ModifyNew] } else { vec![Kind::Limit, Kind::Market, Kind::Cancel, Kind::CancelNew] };
+    let kinds: Vec<Kind> = if su.trading == 0 || su.trading == 3 { vec![Kind::Limit, Kind::Market, Kind::Cancel, Kind::Modify, Kind::CancelNew, Kind::ModifyNew] } else { vec![Kind::Limit, Kind::Market, Kind::Cancel, Kind::CancelNew] };
     let mut words: Vec<Vec<Item>> = vec![vec![]];
     for _ in 0..n {
         let mut next = Vec::new();
@@ -597,12 +608,13 @@ pub fn c15(tier: &str) -> i32 {
             Setup { step_size: 100_000, trading: 1 },
             Setup { step_size: 100_000, trading: 2 },
             Setup { step_size: 2, trading: 2 },
+            Setup { step_size: 100_000, trading: 3 },
         ] {
             exact_small_in::<1>(&acc, su, false, n, &mut setups);
             exact_small_in::<2>(&acc, su, true, n, &mut setups);
         }
     }
-    for su in [Setup { step_size: 2, trading: 0 }, Setup { step_size: 100_000, trading: 1 }, Setup { step_size: 100_000, trading: 2 }] {
+    for su in [Setup { step_size: 2, trading: 0 }, Setup { step_size: 100_000, trading: 1 }, Setup { step_size: 100_000, trading: 2 }, Setup { step_size: 100_000, trading: 3 }] {
         content_independence_in::<1>(&acc, su, false, 3, &mut content);
         content_independence_in::<2>(&acc, su, true, 3, &mut content);
     }
